@@ -267,7 +267,7 @@ class Fn:
                 return self.var(node.id)
             if k is None:
                 self.fail(node, 'unknown name (declare it in params/consts)')
-            self.fail(node, 'a %s used where a scalar is needed' % k)
+            self.fail(node, 'a %s used where a scalar is needed' % (k,))
         if isinstance(node, ast.Attribute):
             t = ast.unparse(node)
             if t in self.attrs:
@@ -933,6 +933,9 @@ def translate_file(repo_root, specs, namespace, out_path, header=''):
             errors.append('%s:%s: %s' % (spec['module'], spec['func'], e))
             # keep the file compiling: the missing definition makes the tie theorem fail, which is the signal
             texts.append('-- NOT TRANSLATABLE: %s\n' % str(e).replace('\n', ' ')[:300])
+        except Exception as e:   # a source text the translator does not even parse into its subset: same signal, never INFRA
+            errors.append('%s:%s: translator error %s: %s' % (spec['module'], spec['func'], type(e).__name__, e))
+            texts.append('-- NOT TRANSLATABLE (translator error %s): %s\n' % (type(e).__name__, str(e).replace('\n', ' ')[:300]))
     lits = ' '.join('[OfNat α %d]' % n for n in sorted(literals))
     body = ('/-\n  GENERATED by harness/translate.py from the source text of the taurex package under check — do not edit.\n'
             '  %s\n-/\nimport TaurexModel.Num\n%sset_option linter.unusedVariables false\n\nnamespace %s\n\nsection\nvariable {α : Type} [Add α] [Sub α] [Mul α] [Div α] '
